@@ -14,6 +14,7 @@
   A file is the list of its bytes; byte type `α` and digest type `δ` are parameters.
 -/
 import Torf.Model.Stream
+import Torf.Model.Missing
 namespace Torf.Handles
 open Torf
 
@@ -281,5 +282,66 @@ def specOut [BEq δ] (files : List (List α)) (L : Nat) (H : List α → δ) (st
     else .err .value
   | .close => .none
   | .ctxExit => .none
+
+/-! ### histories in which the torrent's stored piece hashes change between operations
+
+`verify_piece` reads `self._torrent.hashes[piece_index]` anew on every call, so the stored hashes
+are an *argument* of the operation (a field of `Cfg`), not state of the stream object.  A history
+step is either a public operation or the replacement of the stored hashes
+(`metainfo['info']['pieces'] = …`, re-hashing with another piece length, `del …['pieces']`). -/
+
+inductive Step (δ : Type) where
+  | op (o : Op)
+  | setStored (hs : List δ)
+
+/-- run a history with hash replacements on an object whose table is `t` -/
+def runAllS [BEq δ] (c : Cfg α δ) : List (Step δ) → Table → List (Out α δ × Nat)
+  | [], _ => []
+  | .op o :: ss, t => let r := run c o t; (r.out, r.tbl.length) :: runAllS c ss r.tbl
+  | .setStored hs :: ss, t => (.none, t.length) :: runAllS { c with stored := hs } ss t
+
+/-- the same steps, every operation performed on a *fresh* object (empty table) with the hashes
+    that are stored in the torrent at that moment -/
+def freshAllS [BEq δ] (c : Cfg α δ) : List (Step δ) → List (Out α δ)
+  | [] => []
+  | .op o :: ss => (run c o []).out :: freshAllS c ss
+  | .setStored hs :: ss => .none :: freshAllS { c with stored := hs } ss
+
+/-! ### `iter_pieces` on a damaged disk: the lifetime of the `_MissingPieces` record
+
+On a disk with missing / mis-sized files `iter_pieces` consults a `_MissingPieces` helper that
+remembers the piece indexes it has already reported and the by-catch files to skip.  The model of
+that branch is `Torf.Missing.step` / `Torf.Missing.iterItems` (property C10; table-free: the bytes
+of a good file are read after `fh.seek(skip_bytes)`, so the handle table does not enter).  What
+matters for C19 is *where the record lives*: the code creates it at the top of every
+`iter_pieces()` call (`perCall = true`); keeping one record per stream object (`perCall = false`,
+created in `__init__`) makes the answer depend on earlier iterations. -/
+
+/-- memory of `_MissingPieces`: `_piece_indexes_seen`, `_bycatch_files` -/
+structure MRec where
+  seen : List Nat := []
+  bycatch : List Nat := []
+deriving DecidableEq, Repr
+
+/-- a complete `iter_pieces()` on a possibly damaged disk by an object that holds the record `m`;
+    returns the items (`none`: an internal error escaped) and the record the object holds
+    afterwards -/
+def iterDamaged (perCall : Bool) (L : Nat) (sizes : List Nat) (disk : List (Option (List α)))
+    (m : MRec) : Option (List (Missing.Item α)) × MRec :=
+  let m0 : MRec := if perCall then {} else m       -- `missing_pieces = _MissingPieces(…)` per call
+  let st := (List.range sizes.length).foldl (Missing.step L sizes disk)
+    { seen := m0.seen, bycatch := m0.bycatch }
+  let items :=
+    if st.failed then none
+    else if st.trailing.isEmpty then some st.out
+    else some (st.out ++ [Missing.dataItem st.trailing])
+  (items, if perCall then m else ⟨st.seen, st.bycatch⟩)
+
+/-- records an object can hold after a finite number of complete iterations -/
+inductive ReachM (perCall : Bool) (L : Nat) (sizes : List Nat) (disk : List (Option (List α))) :
+    MRec → Prop where
+  | init : ReachM perCall L sizes disk {}
+  | step {m : MRec} : ReachM perCall L sizes disk m →
+      ReachM perCall L sizes disk (iterDamaged perCall L sizes disk m).2
 
 end Torf.Handles
